@@ -258,6 +258,16 @@ def oracle(seed, tier):
 # blocking acquirers under the deterministic scheduler (trace validation against the
 # blocking model `bstep`, and the direct no-lost-wake-up oracle)
 
+
+def _thread_failure(sch, fail):
+    """A thread of the rig that died with an exception is a failed run, never a quiet one (its events are
+    missing from the trace)."""
+    if fail is None and sch.thread_errors:
+        name, e, tb = sch.thread_errors[0]
+        return RuntimeError('thread %s died: %r | %s' % (name, e, tb.strip().split('\n')[-1][:200]))
+    return fail
+
+
 def blocking_run(seed, cap, plans, mode):
     """plans: per thread a list of tags; the thread does, for each tag: tok = acquire(tag)
     (blocking), yield, release(tag, tok).  Returns (events sorted by stamp, failure, sched)."""
@@ -290,6 +300,13 @@ def blocking_run(seed, cap, plans, mode):
 
             def notify_all(self):
                 inner.notify_all()
+
+            def __enter__(self):
+                self.acquire()
+                return self
+
+            def __exit__(self, *a):
+                self.release()
         sem._condition = CondProxy()
 
         def worker(i, tags):
@@ -313,7 +330,7 @@ def blocking_run(seed, cap, plans, mode):
         def main():
             ts = [sch.spawn(worker(i, p), 'u%d' % i) for i, p in enumerate(plans)]
             sch.block_until(lambda: all(t.finished for t in ts), 'join')
-        fail = sch.run(main, timeout=30)
+        fail = _thread_failure(sch, sch.run(main, timeout=30))
         # events of calls that never returned (blocked for ever) are in `stamps` only
         return sorted(events), fail, sch, sem
 
@@ -375,6 +392,11 @@ def window_used(events):
 
 def blocking_oracle_c11(seed, tier):
     return blocking_oracle(seed, tier, prop='C11')
+
+
+def blocking_oracle_c10(seed, tier):
+    # the tag semaphore behind max_in_memory_download_chunks is one of the configured limits
+    return blocking_oracle(seed, tier, prop='C10')
 
 
 def blocking_oracle(seed, tier, prop='C12'):
@@ -479,7 +501,7 @@ def cci_run(seed, nparts, mode, early):
             do('fin', cci.finalize)
             started['n'] = nparts
             sch.block_until(lambda: all(t.finished for t in ts), 'join')
-        fail = sch.run(main, timeout=30)
+        fail = _thread_failure(sch, sch.run(main, timeout=30))
     return sorted(events), fired, fail, sch, cci
 
 
@@ -580,7 +602,7 @@ def tsem_blocking_oracle(seed, tier):
                 except NoResourcesAvailable:
                     pass
                 probe['free'] = got
-            fail = sch.run(main, timeout=60)
+            fail = _thread_failure(sch, sch.run(main, timeout=60))
         res.evaluations += 1
         if res.enough():
             break
